@@ -8,7 +8,10 @@ of every section must equal the bytes of the edited listing.
 """
 import itertools
 
+import gtirb
+
 from ..core import TaskResult
+from ..world import compare as C
 from ..world import scen
 from ..world.run import run_scenario
 
@@ -151,6 +154,8 @@ def tasks(tier):
         t.append(("aligned", i, "one", 2 if tier == "quick" else 3, "same-offset"))
     for combo in (["c2", "c1"], ["c2", "d2", "cr"], ["c1", "c3", "c1"]):
         t.append(("scope", combo, "one", 2 if tier == "quick" else 3, True))
+    for name in RAW_LAYOUTS:
+        t.append(("raw", name, "one", 2, True))
     for target in ("x64-elf", "x64-pe", "ia32-pe", "arm64-elf", "mips32-elf"):
         bound = BOUNDS[tier]["x64-elf" if target == "x64-elf" else "others"]
         for combo in shapes(target):
@@ -211,9 +216,152 @@ def check(spec, mods):
     return outcome, diffs, E
 
 
+# =============================================================================== raw layouts
+# Shapes the assembly-listing world cannot express: blocks that OVERLAP (they share bytes of one interval) and an
+# interval whose tail is uninitialized (size > initialized_size).  The reference is the section image - contents padded
+# with zeros up to the interval size - edited by splicing at absolute original addresses.
+RAW_LAYOUTS = {
+    # name: (size, initialized, [(offset, size, kind)])      code = 2-byte tagged instructions, data = tagged bytes
+    "overlap-code": (10, 10, [(0, 6, "c"), (2, 6, "c"), (8, 2, "c")]),
+    "overlap-nested": (10, 10, [(0, 8, "c"), (2, 4, "c"), (8, 2, "c")]),
+    "overlap-data": (8, 8, [(0, 4, "d"), (2, 4, "d"), (6, 2, "d")]),
+    "uninit-tail": (10, 6, [(0, 4, "c"), (4, 4, "d"), (8, 2, "d")]),
+    "uninit-all-of-last": (8, 4, [(0, 2, "d"), (2, 4, "d"), (6, 2, "d")]),
+    "uninit-after-code": (8, 4, [(0, 4, "c"), (4, 2, "d"), (6, 2, "d")]),
+}
+
+
+def raw_image(name):
+    size, init, blocks = RAW_LAYOUTS[name]
+    img = bytearray(size)
+    code = set()
+    for o, s, k in blocks:
+        if k == "c":
+            code.update(range(o, o + s))
+    for i in range(init):
+        if i in code:
+            img[i] = 0xB0 if i % 2 == 0 else 0x10 + i
+        else:
+            img[i] = 0xD0 + i
+    return bytes(img)
+
+
+def raw_atoms(name):
+    size, init, blocks = RAW_LAYOUTS[name]
+    out = []
+    for bi_, (o, s, k) in enumerate(blocks):
+        unit = 2 if k == "c" else 1
+        for off in range(0, s + 1, unit):
+            if k == "c" and o + off > init:
+                continue
+            out.append({"op": "ins", "blk": bi_, "off": off, "kind": k})
+        for off in range(0, s, unit):
+            if name.startswith("overlap"):
+                continue  # edits that remove bytes two blocks share are not "non-overlapping requests" in any clear sense
+            out.append({"op": "del", "blk": bi_, "off": off, "n": unit})
+            out.append({"op": "rep", "blk": bi_, "off": off, "n": unit, "kind": k})
+    return out
+
+
+def raw_sets(name, bound):
+    atoms = raw_atoms(name)
+    blocks = RAW_LAYOUTS[name][2]
+
+    def span(a):
+        base = blocks[a["blk"]][0] + a["off"]
+        return base, base + a.get("n", 0)
+
+    yield []
+    for a in atoms:
+        yield [a]
+    if bound >= 2:
+        for a, b in itertools.combinations(atoms, 2):
+            (a0, a1), (b0, b1) = span(a), span(b)
+            # different absolute places (the order of two splices at one address through two different blocks is not defined)
+            if a1 <= b0 and a0 != b0 or b1 <= a0 and a0 != b0:
+                if a0 == a1 and b0 < a0 < b1 or b0 == b1 and a0 < b0 < a1:
+                    continue
+                yield [a, b]
+                yield [b, a]
+
+
+def raw_check(name, mods):
+    from gtirb_rewriting import Patch, RewritingContext, Constraints
+    from gtirb_test_helpers import add_text_section, create_test_module
+    from ..world import listing as Lg
+
+    size, init, blocks = RAW_LAYOUTS[name]
+    img = raw_image(name)
+    ir, m = create_test_module(gtirb.Module.FileFormat.ELF, gtirb.Module.ISA.X64)
+    sect, iv = add_text_section(m, 0x1000)
+    iv.contents = img[:init]
+    iv.size = size
+    iv.initialized_size = init
+    bl = []
+    for o, s, k in blocks:
+        b = (gtirb.CodeBlock if k == "c" else gtirb.DataBlock)(offset=o, size=s)
+        b.byte_interval = iv
+        bl.append(b)
+    for i in range(len(bl) - 1):
+        if blocks[i][2] == "c" and blocks[i + 1][2] == "c" and blocks[i][0] + blocks[i][1] == blocks[i + 1][0]:
+            ir.cfg.add(gtirb.Edge(bl[i], bl[i + 1], gtirb.Edge.Label(gtirb.Edge.Type.Fallthrough)))
+    ctx = RewritingContext(m, [])
+    splices = []  # (absolute address, registration index, removed, inserted bytes)
+    for i, md in enumerate(mods):
+        o, s, k = blocks[md["blk"]]
+        addr = o + md["off"]
+        tag = 0x61 + i
+        if md["op"] in ("ins", "rep"):
+            text, pb = ("movb $%d, %%bl" % tag, bytes([0xB3, tag])) if md["kind"] == "c" else (".byte %d" % tag, bytes([tag]))
+            patch = Patch.from_function(lambda ctx_, text=text: text, Constraints())
+        if md["op"] == "ins":
+            ctx.insert_at(bl[md["blk"]], md["off"], patch)
+            splices.append((addr, i, 0, pb))
+        elif md["op"] == "rep":
+            ctx.replace_at(bl[md["blk"]], md["off"], md["n"], patch)
+            splices.append((addr, i, md["n"], pb))
+        else:
+            ctx.delete_at(bl[md["blk"]], md["off"], md["n"])
+            splices.append((addr, i, md["n"], b""))
+    roles = {"r_layout": name.split("-")[0]}
+    # request pattern of F46: new bytes go in strictly inside ANOTHER block (behind its start) that still has an edit of
+    # its own pending at a higher address - the rewriter translates that block's offsets as if nothing had moved inside it
+    sp = [(blocks[md["blk"]][0] + md["off"], md["blk"], md["op"]) for md in mods]
+    roles["r_pattern"] = "none"
+    for ax, bx, opx in sp:
+        for ay, by, _ in sp:
+            if bx != by and opx in ("ins", "rep") and blocks[by][0] < ax < ay:
+                roles["r_pattern"] = "insertion-inside-another-block-below-its-pending-edit"
+    try:
+        ctx.apply()
+    except Exception as e:
+        return "raised", [C.D("apply-raised", r_exc=type(e).__name__, msg=str(e)[:100], **roles)]
+    exp = bytearray(img)
+    for addr, i, n, pb in sorted(splices, key=lambda x: (-x[0], -x[1])):
+        exp[addr:addr + n] = pb
+    _, got = Lg.section_layout(sect)
+    diffs = []
+    if bytes(got) != bytes(exp):
+        diffs.append(C.D("bytes-differ", expected=bytes(exp).hex(), observed=bytes(got).hex(), **roles))
+    for iv2 in sect.byte_intervals:
+        for b in iv2.blocks:
+            if b.offset < 0 or b.offset + b.size > iv2.size:
+                diffs.append(C.D("block-outside-its-interval", off=b.offset, size=b.size, interval=iv2.size, **roles))
+    return ("ok" if not diffs else "diff"), diffs
+
+
 def run_task(task):
     target, combo, part, bound, orders = task
     res = TaskResult()
+    if target == "raw":
+        for mods in raw_sets(combo, bound):
+            outcome, diffs = raw_check(combo, mods)
+            res.case(("raw", combo, mods), nontrivial=bool(mods), outcome=outcome)
+            if diffs:
+                res.bad({"raw": combo, "mods": mods}, diffs)
+            if len(mods) == 2:
+                res.sample({"raw": combo, "image": raw_image(combo).hex(), "mods": mods}, cap=1)
+        return res
     if target == "aligned":
         spec = aligned_specs()[combo]
         atoms = aligned_atoms(spec)
@@ -239,4 +387,6 @@ def run_task(task):
 
 
 def replay(case):
+    if "raw" in case:
+        return raw_check(case["raw"], case["mods"])[1]
     return check(case["spec"], case["mods"])[1]
